@@ -302,6 +302,53 @@ namespace
               }
   }
 
+  // ---- family 8: every model plugin of every feature type with nothing but its required entries (all optional parameters at their defaults) ----
+  void family_defaults(std::vector<WCase> &out)
+  {
+    struct M { int feature; const char *kind, *model, *required; };   // feature: 0 continental plate, 1 fault, 2 mantle layer, 3 oceanic plate, 4 plume, 5 subducting plate
+    const std::vector<M> models =
+    {
+      {0,"temperature","adiabatic",""}, {0,"temperature","chapman",""}, {0,"temperature","linear","\"max depth\":1e5"}, {0,"temperature","uniform","\"temperature\":500"},
+      {0,"composition","random","\"compositions\":[0]"}, {0,"composition","uniform","\"compositions\":[0]"},
+      {0,"grains","random uniform distribution","\"compositions\":[0]"}, {0,"grains","random uniform distribution deflected","\"compositions\":[0]"}, {0,"grains","uniform","\"compositions\":[0]"}, {0,"velocity","uniform raw","\"velocity\":[1,2,3]"},
+      {1,"temperature","adiabatic",""}, {1,"temperature","linear","\"max distance fault center\":5e4"}, {1,"temperature","uniform","\"temperature\":500"},
+      {1,"composition","smooth","\"compositions\":[0]"}, {1,"composition","uniform","\"compositions\":[0]"},
+      {1,"grains","random uniform distribution","\"compositions\":[0]"}, {1,"grains","random uniform distribution deflected","\"compositions\":[0]"}, {1,"grains","uniform","\"compositions\":[0]"}, {1,"velocity","uniform raw","\"velocity\":[1,2,3]"},
+      {2,"temperature","adiabatic",""}, {2,"temperature","linear","\"max depth\":1e5"}, {2,"temperature","uniform","\"temperature\":500"}, {2,"composition","uniform","\"compositions\":[0]"},
+      {2,"grains","random uniform distribution","\"compositions\":[0]"}, {2,"grains","random uniform distribution deflected","\"compositions\":[0]"}, {2,"grains","uniform","\"compositions\":[0]"}, {2,"velocity","uniform raw","\"velocity\":[1,2,3]"},
+      {3,"temperature","adiabatic",""}, {3,"temperature","half space model","\"ridge coordinates\":[[[RX,-RY],[RX,RY]]],\"spreading velocity\":0.05,\"max depth\":1e5"}, {3,"temperature","linear","\"max depth\":1e5"},
+      {3,"temperature","plate model","\"max depth\":1e5"}, {3,"temperature","plate model constant age","\"max depth\":1e5"}, {3,"temperature","uniform","\"temperature\":500"},
+      {3,"composition","tian water content","\"compositions\":[0]"}, {3,"composition","uniform","\"compositions\":[0]"},
+      {3,"grains","random uniform distribution","\"compositions\":[0]"}, {3,"grains","random uniform distribution deflected","\"compositions\":[0]"}, {3,"grains","uniform","\"compositions\":[0]"}, {3,"velocity","uniform raw","\"velocity\":[1,2,3]"},
+      {4,"temperature","gaussian","\"centerline temperatures\":[100]"}, {4,"temperature","uniform","\"temperature\":500"}, {4,"composition","uniform","\"compositions\":[0]"},
+      {4,"grains","random uniform distribution deflected","\"compositions\":[0]"}, {4,"grains","uniform","\"compositions\":[0]"}, {4,"velocity","uniform raw","\"velocity\":[1,2,3]"},
+      {5,"temperature","adiabatic",""}, {5,"temperature","linear","\"max distance slab top\":5e4"}, {5,"temperature","mass conserving","\"spreading velocity\":0.05,\"subducting velocity\":0.05"}, {5,"temperature","plate model","\"plate velocity\":0.05"},
+      {5,"temperature","uniform","\"temperature\":500"}, {5,"composition","smooth","\"compositions\":[0]"}, {5,"composition","tian water content","\"compositions\":[0]"}, {5,"composition","uniform","\"compositions\":[0]"},
+      {5,"grains","random uniform distribution","\"compositions\":[0]"}, {5,"grains","random uniform distribution deflected","\"compositions\":[0]"}, {5,"grains","uniform","\"compositions\":[0]"}, {5,"velocity","uniform raw","\"velocity\":[1,2,3]"},
+    };
+    const char *FN[] = {"continental plate", "fault", "mantle layer", "oceanic plate", "plume", "subducting plate"};
+    for (int sph = 0; sph < 2; ++sph) for (auto &m : models)
+        {
+          const double s = sph ? 1.0 : 1e5;
+          WCase w; w.sph = sph; w.has_cs = false;
+          w.family = std::string("defaults") + (sph ? " (spherical)/" : "/") + FN[m.feature] + "/" + m.kind + "/" + m.model;
+          std::string req = m.required;
+          auto rep = [&](const std::string &a, const std::string &b) { size_t p; while ((p = req.find(a)) != std::string::npos) req.replace(p, a.size(), b); };
+          rep("-RY", num(-6*s)); rep("RY", num(6*s)); rep("RX", num(-3*s));
+          const std::string model = std::string("\"") + m.kind + " models\":[{\"model\":\"" + m.model + "\"" + (req.empty() ? "" : "," + req) + "}]";
+          std::string f = std::string("{\"model\":\"") + FN[m.feature] + "\",\"name\":\"F\",";
+          if (m.feature == 0 || m.feature == 2 || m.feature == 3) f += "\"coordinates\":" + pts({{-4*s,-4*s},{4*s,-4*s},{4*s,4*s},{-4*s,4*s}}) + ",";
+          else if (m.feature == 4) f += "\"coordinates\":[" + pt({0,0}) + "," + pt({0.5*s,0}) + "],\"cross section depths\":[1e5,3e5],\"semi-major axis\":[" + num(2*s) + "," + num(s) + "],\"eccentricity\":[0.5,0],\"rotation angles\":[30,60],";
+          else f += "\"coordinates\":[" + pt({0,-3*s}) + "," + pt({0.5*s,0}) + "," + pt({0,3*s}) + "],\"dip point\":" + pt({9*s,0}) + ",\"segments\":[{\"length\":3e5,\"thickness\":[1e5],\"angle\":[30,60]}],";
+          f += model + "}";
+          w.text = world(coord(sph), {f});
+          for (double x : {-3.5, -1.0, 0.0, 0.25, 0.5, 1.0, 2.0, 3.5, 6.0}) for (double y : {0.0, -1.5, 3.9}) for (double d : {0.0, 1.0, 5e4, 1e5, 1.5e5, 2.5e5, 5e5})
+                w.pts.push_back({x*s, y*s, d, false, {{0,0,0}}, "across the feature"});
+          add_global_specials(w);
+          out.push_back(w);
+        }
+  }
+
   void run_world(const std::shared_ptr<std::vector<WCase>> &cases, uint64_t idx, Ctx &ctx)
   {
     static const int c_q = Ctx::counter_id("queries"), c_ex = Ctx::counter_id("queries_refused_with_exception"), c_rej = Ctx::counter_id("worlds_rejected_at_construction"), c_2d = Ctx::counter_id("queries_2d");
@@ -386,9 +433,10 @@ int main(int argc, char **argv)
     family_polar(*cases);
     family_zero_parameters(*cases);
     family_water(*cases);
+    family_defaults(*cases);
     std::vector<Suite> s(1);
     s[0].name = "worlds"; s[0].n = cases->size(); s[0].run = [cases](uint64_t i, Ctx &c) { run_world(cases, i, c); };
-    s[0].bound = std::to_string(cases->size()) + " worlds (rich 6, line features " + (th ? "full" : "reduced") + " product of 12 segment tables x thermal models x {slab,fault} x {cartesian,spherical}, 18 degenerate area/plume set-ups, 2 degenerate cross sections, 10 slabs/faults next to a pole queried on and around the rotation axis, 32 mass conserving slabs with zero / extreme optional parameters, 160 hydrated plates / slabs: 4 lithologies x 5 temperature settings incl. 0 K x pressure cut-offs {10, 0, 1e4} GPa, density {3000, 0})";
+    s[0].bound = std::to_string(cases->size()) + " worlds (rich 6, line features " + (th ? "full" : "reduced") + " product of 12 segment tables x thermal models x {slab,fault} x {cartesian,spherical}, 18 degenerate area/plume set-ups, 2 degenerate cross sections, 10 slabs/faults next to a pole queried on and around the rotation axis, 32 mass conserving slabs with zero / extreme optional parameters, 160 hydrated plates / slabs: 4 lithologies x 5 temperature settings incl. 0 K x pressure cut-offs {10, 0, 1e4} GPa, density {3000, 0}, 114 worlds with one model plugin each and nothing but its required entries: all 57 (feature, kind, model) combinations x {cartesian, spherical})";
     return s;
   });
 }
